@@ -53,6 +53,7 @@ var tables = map[string]struct {
 		"Value", "NewBool", "NewString", "NewUint32", "NewInt32", "NewInt64", "NewUint64"), strict: true},
 	"time": {shim: "vtime", idents: set("Sleep", "AfterFunc", "NewTimer", "After", "NewTicker", "Timer", "Ticker", "Now", "Since", "Until"),
 		strict: false, allow: nil},
+	"math/rand": {shim: "vrand", idents: set("NewSource", "Intn", "Int", "Int31", "Int31n", "Int63", "Int63n", "Uint32", "Uint64", "Float32", "Float64", "Perm", "Shuffle", "Seed"), strict: false},
 	"mosn.io/pkg/utils": {shim: "vutils", idents: set("NewTimer", "Timer", "GoWithRecover"), strict: false},
 }
 
